@@ -155,9 +155,84 @@ def run_impl(c: dict) -> dict:
         out["stable"] = df.sql(optimize=False) == sql_before and list(df.columns) == cols_before
         names = c["names"]
         out["unique"] = list(Row(*names)(*range(len(names)))._unique_field_names)
+        if c.get("pairs"):
+            out["pair_problems"] = action_pairs(df, n, c["ordered"])
     except Exception as e:  # noqa
         out["err"] = f"{type(e).__name__}: {str(e)[:300]}"
     return out
+
+
+def action_pairs(df: t.Any, n: int, ordered: bool) -> t.List[str]:
+    """"none of these actions alters the result of any other": every ordered pair (a, b) of actions, b directly after a,
+    on the same DataFrame object; b's answer must not depend on which action ran before it"""
+    import warnings
+
+    def rows(rs: t.Any) -> t.Any:
+        out = [[plain(v) for v in r] for r in rs]
+        return out if ordered else sorted(json.dumps(r, sort_keys=True, default=str) for r in out)
+
+    def prefix(rs: t.Any) -> t.Any:
+        out = [[plain(v) for v in r] for r in rs]
+        return out if ordered else len(out)
+
+    def pandas() -> t.Any:
+        with warnings.catch_warnings():
+            warnings.simplefilter("ignore")
+            pdf = df.toPandas()
+        return [[str(x) for x in pdf.columns], rows([[_norm(v) for v in row] for row in pdf.itertuples(index=False, name=None)])]
+
+    def arrow() -> t.Any:
+        at = df.toArrow()
+        return [list(at.column_names), rows(list(zip(*[col.to_pylist() for col in at.columns])) if at.num_columns else [])]
+
+    def arrow_batches() -> t.Any:
+        rd = df.toArrow(2)
+        tb = rd.read_all()
+        return [list(tb.column_names), rows(list(zip(*[col.to_pylist() for col in tb.columns])) if tb.num_columns else [])]
+
+    def show() -> t.Any:
+        buf = io.StringIO()
+        with contextlib.redirect_stdout(buf):
+            df.show(n)
+        hdr, body = parse_show(buf.getvalue())
+        return [hdr, body if ordered else len(body)]
+
+    def first() -> t.Any:
+        h = df.first()
+        return (None if h is None else [plain(v) for v in h]) if ordered else (h is None)
+
+    acts: t.Dict[str, t.Callable[[], t.Any]] = {
+        "collect": lambda: rows(df.collect()),
+        "count": lambda: df.count(),
+        "isEmpty": lambda: df.isEmpty(),
+        "first": first,
+        "head_n": lambda: prefix(df.head(n)),
+        "limit_collect": lambda: prefix(df.limit(n).collect()),
+        "toPandas": pandas,
+        "toArrow": arrow,
+        "toArrow_batches": arrow_batches,
+        "show": show,
+        "columns": lambda: list(df.columns),
+        "schema": lambda: [f.name for f in df.schema.fields],
+    }
+
+    def run(name: str) -> t.Any:
+        try:
+            return json.loads(json.dumps(acts[name](), default=str))
+        except Exception as e:  # noqa
+            return f"raised {type(e).__name__}: {str(e)[:80]}"
+
+    problems: t.List[str] = []
+    ref: t.Dict[str, t.Tuple[str, t.Any]] = {}
+    for a in acts:
+        for b in acts:
+            run(a)
+            r = run(b)
+            if b not in ref:
+                ref[b] = (a, r)
+            elif r != ref[b][1] and len(problems) < 6:
+                problems.append(f"{b}() directly after {a}() gives {str(r)[:160]} but after {ref[b][0]}() it gave {str(ref[b][1])[:160]}")
+    return problems
 
 
 def cell(v: t.Any) -> str:
@@ -204,6 +279,8 @@ def judge(c: dict, impl: dict, o: dict) -> t.Tuple[t.List[str], t.List[str]]:
         fails.append(f"show({n}) header {hdr} is not the column names {o['unique_cols']}")
     if impl["again"] != C if ordered else bag(impl["again"]) != bag(C):
         fails.append("collect() changed after running the other actions")
+    for pb in impl.get("pair_problems", []):
+        fails.append("an action alters the result of another: " + pb)
     if not impl["stable"]:
         fails.append("sql()/columns changed after running the actions")
     if len(set(impl["unique"])) != len(impl["unique"]):
@@ -355,6 +432,12 @@ def run(ctx: Ctx) -> None:
         c = gen_case(ctx.rng)
         if c and c01.valid(c) and not c01.has_risky_limit(c):
             cases.append(c)
+    # every ordered pair of actions on the same DataFrame object, for a few DataFrames
+    npairs = 0
+    for c in cases:
+        if c["rows"] and c.get("ordered") and npairs < (24 if ctx.thorough else 4):
+            c["pairs"] = True
+            npairs += 1
     res = evaluate(cases)
 
     # DataFrames with repeated column names (outside the single-table Lean model: the property itself is checked,
